@@ -640,9 +640,13 @@ class DoIPConnection:
                 unexpected_packets.append((hdr, payload))
                 continue
 
-            # Do not consume unexpected packets, but re-add them to the queue for other consumers
-            for item in unexpected_packets:
-                await self._read_queue.put(item)
+            # Do not consume unexpected packets, but re-add them to the queue for other consumers.
+            # They arrived before everything which is still queued, so they have to go in front.
+            queued: list[tuple[Any, Any]] = []
+            while not self._read_queue.empty():
+                queued.append(self._read_queue.get_nowait())
+            for item in unexpected_packets + queued:
+                self._read_queue.put_nowait(item)
 
             if isinstance(payload, DiagnosticMessageNegativeAcknowledgement):
                 raise DoIPNegativeAckError(payload.ACKCode)
